@@ -48,6 +48,12 @@ M = [
  ('C03-m11', 'C03', CORE + 'validator/typecheck.rs', '                                if ty.is_required\n                                    || prior_capability', '                                if true\n                                    || prior_capability'),
  ('C03-m12', 'C03', CORE + 'validator/typecheck.rs', 'let type_of_has = if is_record_type || in_prior_capability {', 'let type_of_has = if true || is_record_type || in_prior_capability {'),
  ('C03-m13', 'C03', CORE + 'validator/typecheck.rs', '                                        Type::singleton_boolean(true)\n                                    } else {\n                                        Type::primitive_boolean()\n                                    },\n                                ))\n                                .with_same_source_loc(e)\n                                .has_attr', '                                        Type::singleton_boolean(true)\n                                    } else {\n                                        Type::singleton_boolean(true)\n                                    },\n                                ))\n                                .with_same_source_loc(e)\n                                .has_attr'),
+ ('C03-m14', 'C03', CORE + 'validator/typecheck.rs', '                        if prior_capability.contains(&Capability::new_borrowed_tag(arg1, arg2)) {\n                            // Determine the set', '                        if true || prior_capability.contains(&Capability::new_borrowed_tag(arg1, arg2)) {\n                            // Determine the set'),
+ ('C03-m15', 'C03', CORE + 'validator/typecheck.rs', '                            CapabilitySet::singleton(Capability::new_borrowed_tag(arg1, arg2)),', '                            CapabilitySet::singleton(Capability::new_borrowed_tag(arg1, arg1)),'),
+ ('C03-m16', 'C03', CORE + 'validator/typecheck.rs', '                        let type_of_has = if self.tag_types(kind).is_empty() {', '                        let type_of_has = if !self.tag_types(kind).is_empty() {'),
+ ('C03-m17', 'C03', CORE + 'validator/typecheck.rs', '                            let type_of_is = if !actual_lub.contains_entity_type(entity_type) {', '                            let type_of_is = if actual_lub.contains_entity_type(entity_type) {'),
+ ('C03-m18', 'C03', CORE + 'validator/typecheck.rs', '                Type::singleton_boolean(lhs_lit == rhs_lit)', '                Type::singleton_boolean(lhs_lit != rhs_lit)'),
+ ('C03-m19', 'C03', CORE + 'validator/typecheck.rs', '                let rhs_ty = self.typecheck(prior_capability, arg2, type_errors);\n                lhs_ty.then_typecheck(|lhs_ty, _| {\n                    rhs_ty.then_typecheck(|rhs_ty, _| {\n                        let type_of_eq', '                let rhs_ty = self.typecheck(prior_capability, arg2, type_errors);\n                lhs_ty.then_typecheck(|lhs_ty, _| {\n                    rhs_ty.into_fail().then_typecheck(|rhs_ty, _| {\n                        let type_of_eq'),
  ('C17-m1', 'C17', CORE + 'validator/entity_manifest.rs', '            if matches!(op, BinaryOp::In) {', '            if false && matches!(op, BinaryOp::In) {'),
  ('C17-m2', 'C17', CORE + 'validator/entity_manifest.rs', '            .union(entity_manifest_from_expr(then_expr)?)\n            .union(entity_manifest_from_expr(else_expr)?)),', '            .union(entity_manifest_from_expr(then_expr)?)),'),
  ('C17-m3', 'C17', CORE + 'validator/entity_manifest.rs', '        ExprKind::HasAttr { expr, attr } => Ok(entity_manifest_from_expr(expr)?\n            .get_or_has_attr(attr)\n            .empty_paths()),', '        ExprKind::HasAttr { expr, attr: _ } => Ok(entity_manifest_from_expr(expr)?\n            .empty_paths()),'),
